@@ -32,6 +32,12 @@ FIRST = {
     'w04-C08': 'caught by C01/C02/C03/C05/C07 only -> K3/M7/M1 added to C08',
     'w07-C17': 'idiom alarm only (T3 weakref-in-region) -> T3 stores-the-answer',
     'w09-C19': 'missed -> DC3 flag-written-to-a-copy',
+    'x01-C03': 'caught', 'x04-C07': 'caught', 'x05-C08': 'caught', 'x07-C12': 'caught', 'x08-C14': 'caught',
+    'x02-C04': 'missed -> new rule N3 (positional entry -> name list, with the domain reason)',
+    'x03-C05': 'caught by C07/C09 only -> P4 added to C05',
+    'x06-C11': 'missed -> S1 unconditional positions',
+    'x09-C15': 'idiom alarm only (M2 in C01: vectorcall spelling) -> E2 covers release() into raw slots and throw exits; descriptors recognise the C-API call spelling',
+    'x10-C16': 'missed -> new rule I4 (non-induction index must be range-tested)',
 }
 
 
